@@ -282,7 +282,8 @@ Lemma spoiled_in_app l1 l2 pos a b :
 Proof.
   revert pos. induction l1 as [|g r IH]; intros pos.
   - cbn [app spoiled_in orb]. unfold total_size; cbn. rewrite Z.add_0_r. reflexivity.
-  - cbn [app spoiled_in]. rewrite IH, total_size_cons, orb_assoc. do 3 f_equal. lia.
+  - cbn [app spoiled_in]. rewrite IH, total_size_cons, orb_assoc.
+    replace (pos + fsize g + total_size r) with (pos + (fsize g + total_size r)) by lia. reflexivity.
 Qed.
 
 Lemma spoiled_in_nohit fs : forall pos a b, nonneg fs ->
@@ -367,3 +368,587 @@ Proof.
 Qed.
 
 End Damage.
+
+(* ---------- evaluation of _MissingPieces.__call__ ---------- *)
+
+Lemma offset_of_app_len done rest : offset_of (done ++ rest) (length done) = total_size done.
+Proof. unfold offset_of. rewrite firstn_app, firstn_all, Nat.sub_diag. cbn [firstn]. rewrite app_nil_r. reflexivity. Qed.
+
+Lemma offset_of_app_lt done rest k : (k <= length done)%nat -> offset_of (done ++ rest) k = offset_of done k.
+Proof.
+  intros H. unfold offset_of. rewrite firstn_app. replace (k - length done)%nat with 0%nat by lia.
+  cbn [firstn]. rewrite app_nil_r. reflexivity.
+Qed.
+
+Lemma exists_last_or_nil {X} (l : list X) : l = [] \/ exists l' x, l = l' ++ [x].
+Proof.
+  destruct l as [|a r]; [left; reflexivity|right].
+  destruct (exists_last (l := a :: r)) as (l' & x & H); [discriminate|]. exists l', x. exact H.
+Qed.
+
+Lemma NoDup_app_r {X} (a b : list X) : NoDup (a ++ b) -> NoDup b.
+Proof. induction a as [|x r IH]; [auto|]. cbn [app]. intros H. inversion H; subst. auto. Qed.
+
+Lemma NoDup_mid_notin {X} (a : list X) x b : NoDup (a ++ x :: b) -> ~ In x a.
+Proof. intros H Hin. apply NoDup_remove_2 in H. apply H. apply in_or_app. left. exact Hin. Qed.
+
+Section Eval.
+Variable d : disk.
+Variable L : Z.
+Hypothesis HL : 0 < L.
+
+Lemma bycatch_eval done f post a B :
+  let fs := done ++ f :: post in
+  let o := total_size done in
+  let e := o + fsize f in
+  NoDup fs -> allpos fs -> a < e -> a <= B -> e - 1 <= B ->
+  exists skip,
+    (match spec_files_in_range done 0 a B ++ spec_files_in_range post e a B with
+     | [] => Ok ([], 0)
+     | a0 :: _ =>
+         let next_file := last (spec_files_in_range done 0 a B ++ spec_files_in_range post e a B) a0 in
+         do rng <- byte_range_of_file fs next_file;
+         let '(nstart, nend) := rng in
+         if nend >? B then Ok (removelast (spec_files_in_range done 0 a B ++ spec_files_in_range post e a B), B - nstart + 1)
+         else Ok (spec_files_in_range done 0 a B ++ spec_files_in_range post e a B, 0)
+     end) = Ok (spec_files_in_range done 0 a B ++ covered post e (B + 1), skip)
+    /\ skip_ok skip post e (B + 1).
+Proof.
+  intros fs o e Hnd Hpos Hae HaB HeB.
+  assert (allpos done /\ 0 < fsize f /\ allpos post) as (Hpd & Hf & Hpp).
+  { apply allpos_app in Hpos as [H1 H2]. inversion H2; subst. auto. }
+  destruct (spec_post post e a B Hpp Hae HaB) as (rest & Hsplit & Hspec & Hbig & Hskip).
+  set (E0 := spec_files_in_range done 0 a B) in *.
+  set (C := covered post e (B + 1)) in *.
+  assert (e + total_size C <= B + 1) as HC.
+  { apply covered_total; [apply allpos_nonneg; assumption|lia]. }
+  rewrite Hspec.
+  destruct rest as [|g r'].
+  - (* every later file is covered *)
+    rewrite app_nil_r. exists 0. split; [|apply Hskip; exact I].
+    destruct (exists_last_or_nil C) as [HCn|(C0 & cl & HCe)].
+    + rewrite HCn, app_nil_r.
+      destruct (exists_last_or_nil E0) as [HEn|(E1 & el & HEe)]; [rewrite HEn; reflexivity|].
+      assert (In el E0) as Hel by (rewrite HEe; apply in_or_app; right; left; reflexivity).
+      apply spec_files_in_range_In in Hel as (k & Hk & _).
+      assert (k < length done)%nat as Hklt by (apply nth_error_Some; congruence).
+      assert (byte_range_of_file fs el = Ok (offset_of done k, offset_of done k + fsize el - 1)) as Hbr.
+      { rewrite (byte_range_of_file_spec fs k el Hnd).
+        - unfold fs. rewrite offset_of_app_lt by lia. reflexivity.
+        - unfold fs. rewrite nth_error_app1 by lia. exact Hk. }
+      rewrite (aff_step fs E0 E1 el B _ _ HEe Hbr).
+      pose proof (offset_end_le_total done k el (allpos_nonneg _ Hpd) Hk) as Hle.
+      replace (offset_of done k + fsize el - 1 >? B) with false by (fold o in Hle; lia). reflexivity.
+    + assert (fs = (done ++ f :: C0) ++ cl :: []) as Hfs.
+      { unfold fs. rewrite Hsplit, app_nil_r, HCe. rewrite <- app_assoc. reflexivity. }
+      assert (byte_range_of_file fs cl = Ok (total_size (done ++ f :: C0), total_size (done ++ f :: C0) + fsize cl - 1)) as Hbr.
+      { rewrite Hfs. apply byte_range_split. rewrite <- Hfs. exact Hnd. }
+      assert (E0 ++ C = (E0 ++ C0) ++ [cl]) as Haff by (rewrite HCe, app_assoc; reflexivity).
+      rewrite (aff_step fs (E0 ++ C) (E0 ++ C0) cl B _ _ Haff Hbr).
+      rewrite HCe, total_size_app in HC. rewrite total_size_app, total_size_cons.
+      unfold total_size at 2 in HC. cbn [map sumZ] in HC. fold o.
+      replace (o + (fsize f + total_size C0) + fsize cl - 1 >? B) with false by (unfold e in HC; lia). reflexivity.
+  - specialize (Hbig g r' eq_refl).
+    destruct (e + total_size C <=? B) eqn:Ecmp.
+    + (* g straddles the boundary *)
+      exists (B + 1 - (e + total_size C)). split; [|apply Hskip; lia].
+      assert (fs = (done ++ f :: C) ++ g :: r') as Hfs.
+      { unfold fs. rewrite Hsplit at 1. rewrite <- app_assoc. reflexivity. }
+      assert (byte_range_of_file fs g = Ok (total_size (done ++ f :: C), total_size (done ++ f :: C) + fsize g - 1)) as Hbr.
+      { rewrite Hfs. apply byte_range_split. rewrite <- Hfs. exact Hnd. }
+      assert (E0 ++ C ++ [g] = (E0 ++ C) ++ [g]) as Haff by (rewrite app_assoc; reflexivity).
+      rewrite (aff_step fs (E0 ++ C ++ [g]) (E0 ++ C) g B _ _ Haff Hbr).
+      rewrite total_size_app, total_size_cons. fold o.
+      replace (o + (fsize f + total_size C) + fsize g - 1 >? B) with true by (unfold e in *; lia).
+      f_equal. f_equal. unfold e. lia.
+    + (* g starts exactly after the boundary *)
+      rewrite app_nil_r. exists 0. split; [|apply Hskip; lia].
+      destruct (exists_last_or_nil C) as [HCn|(C0 & cl & HCe)].
+      * rewrite HCn, app_nil_r.
+        destruct (exists_last_or_nil E0) as [HEn|(E1 & el & HEe)]; [rewrite HEn; reflexivity|].
+        assert (In el E0) as Hel by (rewrite HEe; apply in_or_app; right; left; reflexivity).
+        apply spec_files_in_range_In in Hel as (k & Hk & _).
+        assert (k < length done)%nat as Hklt by (apply nth_error_Some; congruence).
+        assert (byte_range_of_file fs el = Ok (offset_of done k, offset_of done k + fsize el - 1)) as Hbr.
+        { rewrite (byte_range_of_file_spec fs k el Hnd).
+          - unfold fs. rewrite offset_of_app_lt by lia. reflexivity.
+          - unfold fs. rewrite nth_error_app1 by lia. exact Hk. }
+        rewrite (aff_step fs E0 E1 el B _ _ HEe Hbr).
+        pose proof (offset_end_le_total done k el (allpos_nonneg _ Hpd) Hk) as Hle.
+        replace (offset_of done k + fsize el - 1 >? B) with false by (fold o in Hle; lia). reflexivity.
+      * assert (fs = (done ++ f :: C0) ++ cl :: g :: r') as Hfs.
+        { unfold fs. rewrite Hsplit at 1. rewrite HCe. rewrite <- !app_assoc. reflexivity. }
+        assert (byte_range_of_file fs cl = Ok (total_size (done ++ f :: C0), total_size (done ++ f :: C0) + fsize cl - 1)) as Hbr.
+        { rewrite Hfs. apply byte_range_split. rewrite <- Hfs. exact Hnd. }
+        assert (E0 ++ C = (E0 ++ C0) ++ [cl]) as Haff by (rewrite HCe, app_assoc; reflexivity).
+        rewrite (aff_step fs (E0 ++ C) (E0 ++ C0) cl B _ _ Haff Hbr).
+        rewrite HCe, total_size_app in HC. rewrite total_size_app, total_size_cons.
+        unfold total_size at 2 in HC. cbn [map sumZ] in HC. fold o.
+        replace (o + (fsize f + total_size C0) + fsize cl - 1 >? B) with false by (unfold e in HC; lia). reflexivity.
+Qed.
+
+Lemma zmem_false x l : ~ In x l -> zmem x l = false.
+Proof. intros H. destruct (zmem x l) eqn:E; [|reflexivity]. apply zmem_In in E. contradiction. Qed.
+
+Lemma missing_pieces_eval done f post st n reason :
+  let fs := done ++ f :: post in
+  let o := total_size done in
+  let e := o + fsize f in
+  let plast := (e - 1) / L in
+  let B := (plast + 1) * L - 1 in
+  NoDup fs -> allpos fs ->
+  0 <= n -> n * L < e -> o < n * L + L -> n * L < o + L ->
+  (forall x, In x (mp_seen st) -> x < n) ->
+  (o < n * L -> In (n - 1) (mp_seen st)) ->
+  exists skip,
+    missing_pieces d fs L st f reason =
+      Ok (mp_items (fid f) reason
+            (flat_map (report_of d) (spec_files_in_range done 0 (plast * L) B ++ covered post e (B + 1)))
+            (plast - n + 1),
+          skip,
+          {| mp_seen := mp_seen st ++ zrange n (plast + 1);
+             mp_bycatch := mp_bycatch st ++ spec_files_in_range done 0 (plast * L) B ++ covered post e (B + 1) |})
+    /\ skip_ok skip post e (B + 1).
+Proof.
+  intros fs o e plast B Hnd Hpos Hn Hne Hlt Hgt Hseen Hhas.
+  assert (allpos done /\ 0 < fsize f /\ allpos post) as (Hpd & Hf & Hpp).
+  { apply allpos_app in Hpos as [H1 H2]. inversion H2; subst. auto. }
+  pose proof (total_size_nonneg done (allpos_nonneg _ Hpd)) as Ho. fold o in Ho.
+  assert (nth_error fs (length done) = Some f) as Hk.
+  { unfold fs. rewrite nth_error_app2, Nat.sub_diag by lia. reflexivity. }
+  assert (n <= plast) as Hnp by (unfold plast; apply Z.div_le_lower_bound; lia).
+  assert (plast * L <= e - 1 < (plast + 1) * L) as Hpl.
+  { unfold plast. pose proof (Z.div_mod (e - 1) L ltac:(lia)). pose proof (Z.mod_pos_bound (e - 1) L HL). nia. }
+  unfold missing_pieces.
+  rewrite (piece_indexes_inclusive_spec fs L (length done) f Hnd Hk HL).
+  unfold fs at 1 2. rewrite offset_of_app_len. fold o. fold fs.
+  replace (o + fsize f - 1) with (e - 1) by (unfold e; lia). fold plast.
+  cbn [bind].
+  (* the piece indexes that have not been faked yet *)
+  assert (rm_while_iter (length (zrange (o / L) (plast + 1))) (mp_seen st) (zrange (o / L) (plast + 1)) 0
+          = zrange n (plast + 1)) as Hrm.
+  { assert (forall y, In y (zrange n (plast + 1)) -> zmem y (mp_seen st) = false) as Hfresh.
+    { intros y Hy. apply zrange_In in Hy. apply zmem_false. intros Hin. apply Hseen in Hin. lia. }
+    destruct (Z_lt_dec o (n * L)) as [Hskipmode|Hgood].
+    - assert (o / L = n - 1) as ->.
+      { symmetry. apply Z.div_unique with (r := o - (n - 1) * L); lia. }
+      rewrite (zrange_cons (n - 1) (plast + 1)) by lia.
+      replace (n - 1 + 1) with n by lia. cbn [length].
+      apply rm_head; [|exact Hfresh]. apply zmem_In. apply Hhas. exact Hskipmode.
+    - assert (o / L = n) as ->.
+      { symmetry. apply Z.div_unique with (r := o - n * L); lia. }
+      apply rm_none. exact Hfresh. }
+  rewrite Hrm.
+  pose proof (zrange_cons n (plast + 1) ltac:(lia)) as Hcons.
+  pose proof (zrange_last n (plast + 1) n ltac:(lia)) as Hlast.
+  pose proof (zlen_zrange n (plast + 1) ltac:(lia)) as Hcount.
+  destruct (zrange n (plast + 1)) as [|p0 pt] eqn:Epis; [discriminate|].
+  assert (p0 = n) as -> by congruence.
+  rewrite Hlast. replace (plast + 1 - 1) with plast by lia.
+  (* files in the last faked piece *)
+  assert (total_size fs = e + total_size post) as Htot.
+  { unfold fs. rewrite total_size_app, total_size_cons. unfold e, o. lia. }
+  pose proof (total_size_nonneg post (allpos_nonneg _ Hpp)) as Htp.
+  destruct (files_at_piece_index_in_range fs L plast Hpos HL ltac:(lia) ltac:(lia)) as [Hfapi _].
+  rewrite Hfapi. cbn [bind].
+  replace ((plast + 1) * L - 1) with B by reflexivity.
+  unfold fs at 1. rewrite spec_files_in_range_app. cbn [spec_files_in_range].
+  rewrite Z.add_0_l. fold o.
+  replace (overlaps o (fsize f) (plast * L) B) with true by (unfold overlaps, B; lia).
+  cbn [app]. fold e.
+  rewrite files_remove_mid.
+  2:{ intros Hin. apply spec_files_in_range_In in Hin as (k & Hk' & _).
+      apply (NoDup_mid_notin done f post Hnd). eapply nth_error_In; exact Hk'. }
+  cbn [bind].
+  replace (plast * L + L - 1) with B by (unfold B; lia).
+  destruct (bycatch_eval done f post (plast * L) B Hnd Hpos ltac:(fold o; fold e; lia) ltac:(unfold B; lia)
+              ltac:(fold o; fold e; unfold B; lia)) as (skip & Hby & Hsk).
+  fold o in Hby. fold e in Hby. fold fs in Hby.
+  exists skip. split; [|exact Hsk].
+  match goal with |- bind ?X _ = _ => replace X with
+    (Ok (spec_files_in_range done 0 (plast * L) B ++ covered post e (B + 1), skip) : res (list file * Z)) end.
+  cbn [bind]. rewrite Hcount. replace (plast + 1 - n) with (plast - n + 1) by lia.
+  rewrite bycatch_exceptions_eq. reflexivity.
+Qed.
+
+End Eval.
+
+(* ---------- bookkeeping lemmas for the invariant ---------- *)
+
+Fixpoint bc_ok (bc todo : list file) (pos lim : Z) : Prop :=
+  match todo with
+  | [] => True
+  | g :: r => file_mem g bc = (pos + fsize g <=? lim) /\ bc_ok bc r (pos + fsize g) lim
+  end.
+
+Lemma file_mem_In g l : file_mem g l = true <-> In g l.
+Proof.
+  induction l as [|x r IH]; cbn [file_mem In]; [split; [discriminate|intros []]|].
+  rewrite orb_true_iff, IH, file_eqb_spec. tauto.
+Qed.
+
+Lemma file_mem_false g l : ~ In g l -> file_mem g l = false.
+Proof. intros H. destruct (file_mem g l) eqn:E; [|reflexivity]. apply file_mem_In in E. contradiction. Qed.
+
+Lemma file_mem_app g a b : file_mem g (a ++ b) = file_mem g a || file_mem g b.
+Proof. induction a as [|x r IH]; cbn [app file_mem]; [reflexivity|]. rewrite IH, orb_assoc. reflexivity. Qed.
+
+Lemma bc_ok_none bc l : forall pos lim, allpos l -> lim <= pos ->
+  (forall g, In g l -> file_mem g bc = false) -> bc_ok bc l pos lim.
+Proof.
+  induction l as [|g r IH]; intros pos lim Hp Hl Hn; cbn [bc_ok]; [exact I|].
+  inversion Hp; subst. split.
+  - rewrite Hn by (left; reflexivity). lia.
+  - apply IH; [assumption|lia|]. intros g' Hg'. apply Hn. right. exact Hg'.
+Qed.
+
+Lemma bc_ok_notin bc l : forall pos lim, bc_ok bc l pos lim -> allpos l -> lim <= pos ->
+  forall g, In g l -> file_mem g bc = false.
+Proof.
+  induction l as [|g r IH]; intros pos lim Hb Hp Hl g' Hg'; [destruct Hg'|].
+  inversion Hp as [|? ? Hg0 Hr0]; subst. cbn [bc_ok] in Hb. destruct Hb as [Hb1 Hb2]. destruct Hg' as [<-|Hg'].
+  - rewrite Hb1. lia.
+  - eapply IH; eauto. lia.
+Qed.
+
+Lemma bc_ok_covered l : forall pre pos lim, NoDup l -> allpos l ->
+  (forall g, In g l -> file_mem g pre = false) ->
+  bc_ok (pre ++ covered l pos lim) l pos lim.
+Proof.
+  induction l as [|g r IH]; intros pre pos lim Hnd Hp Hpre; cbn [bc_ok covered]; [exact I|].
+  inversion Hnd as [|? ? Hnin Hnd']; subst. inversion Hp as [|? ? Hg Hr]; subst.
+  destruct (pos + fsize g <=? lim) eqn:E.
+  - split.
+    + rewrite file_mem_app. cbn [file_mem]. rewrite file_eqb_refl. cbn. apply orb_true_r.
+    + replace (pre ++ g :: covered r (pos + fsize g) lim) with ((pre ++ [g]) ++ covered r (pos + fsize g) lim)
+        by (rewrite <- app_assoc; reflexivity).
+      apply IH; try assumption. intros g' Hg'. rewrite file_mem_app, Hpre by (right; exact Hg').
+      cbn [file_mem orb]. rewrite file_eqb_neq; [reflexivity|]. intros ->. contradiction.
+  - rewrite app_nil_r. split; [apply Hpre; left; reflexivity|].
+    apply bc_ok_none; [assumption|lia|]. intros g' Hg'. apply Hpre. right. exact Hg'.
+Qed.
+
+Lemma skip_ok_good l pos lim : lim <= pos -> allpos l -> skip_ok 0 l pos lim.
+Proof.
+  intros Hl Hp. destruct l as [|g r]; cbn [skip_ok]; [exact I|]. inversion Hp; subst.
+  replace (pos + fsize g <=? lim) with false by lia. lia.
+Qed.
+
+Lemma covered_nil l pos lim : lim <= pos -> allpos l -> covered l pos lim = [].
+Proof.
+  intros Hl Hp. destruct l as [|g r]; cbn [covered]; [reflexivity|]. inversion Hp; subst.
+  replace (pos + fsize g <=? lim) with false by lia. reflexivity.
+Qed.
+
+
+Lemma zrange_app a b c : a <= b -> b <= c -> zrange a c = zrange a b ++ zrange b c.
+Proof.
+  intros Hab Hbc. remember (Z.to_nat (b - a)) as k eqn:Ek. revert a Hab Ek.
+  induction k as [|k IH]; intros a Hab Ek.
+  - assert (a = b) as -> by lia. unfold zrange at 2. rewrite Z.sub_diag. reflexivity.
+  - rewrite (zrange_cons a c) by lia. rewrite (zrange_cons a b) by lia. cbn [app]. f_equal.
+    apply IH; lia.
+Qed.
+
+Lemma map_const_repeat {X Y} (g : X -> Y) (c : Y) l : (forall x, In x l -> g x = c) -> map g l = repeat c (length l).
+Proof.
+  induction l as [|x r IH]; intros H; [reflexivity|]. cbn [map length repeat].
+  rewrite H by (left; reflexivity). f_equal. apply IH. intros y Hy. apply H. right. exact Hy.
+Qed.
+
+Lemma list_eq_nth {X} (l1 l2 : list X) : length l1 = length l2 ->
+  (forall k, (k < length l1)%nat -> nth_error l1 k = nth_error l2 k) -> l1 = l2.
+Proof.
+  revert l2. induction l1 as [|x r IH]; intros l2 Hlen H; destruct l2 as [|y r2]; try discriminate; [reflexivity|].
+  f_equal.
+  - specialize (H 0%nat ltac:(cbn; lia)). cbn in H. congruence.
+  - apply IH; [cbn in Hlen; lia|]. intros k Hk. apply (H (S k)). cbn. lia.
+Qed.
+
+Lemma fulls_as_map L s : 0 < L ->
+  fulls L s = map (fun j => slice s (j * L) ((j + 1) * L)) (zrange 0 (zlen s / L)).
+Proof.
+  intros HL. pose proof (fulls_length L HL s) as Hlen. pose proof (zlen_nonneg s) as Hs.
+  assert (0 <= zlen s / L) as Hq by (apply Z.div_pos; lia).
+  apply list_eq_nth.
+  - rewrite map_length. unfold zlen in Hlen at 1. unfold zrange. rewrite map_length, seq_length. lia.
+  - intros k Hk. unfold zlen in Hlen at 1.
+    replace k with (Z.to_nat (Z.of_nat k)) at 1 by lia.
+    rewrite (fulls_nth L HL s (Z.of_nat k)) by lia.
+    rewrite nth_error_map. unfold zrange. rewrite nth_error_map, Z.sub_0_r.
+    rewrite (nth_error_nth' _ 0%nat) by (rewrite seq_length; lia).
+    rewrite seq_nth by lia. cbn [option_map]. do 2 f_equal; lia.
+Qed.
+
+(* ---------- the invariant of the file loop and the main theorem ---------- *)
+
+Section Main.
+Variable d : disk.
+Variable L : Z.
+Hypothesis HL : 0 < L.
+Variable fs : list file.
+Hypothesis Hnd : NoDup fs.
+Hypothesis Hpos : allpos fs.
+
+Let vs := vstream d fs.
+Let total := total_size fs.
+
+(* what the item of piece p must carry *)
+Definition expected (p : Z) : option bytes :=
+  if spoiled_in d fs 0 (p * L) (Z.min ((p + 1) * L) total - 1) then None
+  else Some (slice vs (p * L) (Z.min ((p + 1) * L) total)).
+
+Record inv (done todo : list file) (st : it_state) (acc : list (item * handles)) : Prop := {
+  i_split : fs = done ++ todo;
+  i_lo : zlen acc * L < total_size done + L;
+  i_hi : total_size done < zlen acc * L + L;
+  i_trail : it_trailing st = slice vs (zlen acc * L) (total_size done);
+  i_bc : bc_ok (mp_bycatch (it_mp st)) todo (total_size done) (zlen acc * L);
+  i_skip : skip_ok (it_skip st) todo (total_size done) (zlen acc * L);
+  i_seen : forall x, In x (mp_seen (it_mp st)) -> x < zlen acc;
+  i_has : total_size done < zlen acc * L -> In (zlen acc - 1) (mp_seen (it_mp st));
+  i_clean : forall a b, zlen acc * L <= a -> spoiled_in d done 0 a b = false;
+  i_pieces : map piece_of (map fst acc) = map expected (zrange 0 (zlen acc));
+  i_reports : flat_map excs_of (map fst acc)
+              = flat_map (report_of d) (done ++ covered todo (total_size done) (zlen acc * L))
+}.
+
+Lemma vs_split done f post : fs = done ++ f :: post ->
+  slice vs (total_size done) (total_size done + fsize f) = vcontent d f.
+Proof.
+  intros Hs. unfold vs. rewrite Hs. rewrite vstream_app.
+  change (vstream d (f :: post)) with (vcontent d f ++ vstream d post).
+  assert (allpos done /\ 0 < fsize f) as (Hpd & Hf).
+  { rewrite Hs in Hpos. apply allpos_app in Hpos as [H1 H2]. inversion H2; subst. auto. }
+  rewrite <- (zlen_vstream d done) by (apply allpos_nonneg; assumption).
+  rewrite <- (zlen_vcontent d f) at 1 by lia. apply slice_app_mid.
+Qed.
+
+Lemma total_ge done todo : fs = done ++ todo -> total = total_size done + total_size todo.
+Proof. intros Hs. unfold total. rewrite Hs. apply total_size_app. Qed.
+
+Lemma zlen_vs : zlen vs = total.
+Proof. unfold vs, total. apply zlen_vstream. apply allpos_nonneg. exact Hpos. Qed.
+
+(* a file that already lies inside the faked pieces is skipped *)
+Lemma step_covered done f post st acc :
+  inv done (f :: post) st acc -> total_size done + fsize f <= zlen acc * L ->
+  file_mem f (mp_bycatch (it_mp st)) = true /\ inv (done ++ [f]) post st acc.
+Proof.
+  intros I Hcov. destruct I. cbn [bc_ok] in i_bc0. destruct i_bc0 as [Hmem Hbc].
+  cbn [skip_ok covered] in *.
+  replace (total_size done + fsize f <=? zlen acc * L) with true in * by lia.
+  assert (0 < fsize f) as Hf.
+  { rewrite i_split0 in Hpos. apply allpos_app in Hpos as [_ H2]. inversion H2; subst. assumption. }
+  split; [exact Hmem|].
+  assert (total_size (done ++ [f]) = total_size done + fsize f) as Ht.
+  { rewrite total_size_app. unfold total_size. cbn [map sumZ]. lia. }
+  constructor; rewrite ?Ht.
+  - rewrite i_split0, <- app_assoc. reflexivity.
+  - lia.
+  - lia.
+  - rewrite i_trail0. rewrite !slice_empty by lia. reflexivity.
+  - exact Hbc.
+  - exact i_skip0.
+  - exact i_seen0.
+  - intros H. apply i_has0. lia.
+  - intros a b Ha. rewrite spoiled_in_app, i_clean0 by exact Ha. cbn [spoiled_in orb].
+    replace (overlaps (0 + total_size done) (fsize f) a b) with false by (unfold overlaps; lia).
+    rewrite andb_false_r. reflexivity.
+  - exact i_pieces0.
+  - rewrite i_reports0, <- app_assoc. reflexivity.
+Qed.
+
+Lemma goodb_true f c : disk_get d (fid f) = Some c -> zlen c = fsize f -> goodb d f = true /\ vcontent d f = c.
+Proof.
+  intros Hc Hz. unfold vcontent, goodb, content_of. rewrite Hc.
+  replace (zlen c =? fsize f) with true by lia. auto.
+Qed.
+
+Lemma expected_clean p done post :
+  fs = done ++ post -> 0 <= p ->
+  spoiled_in d done 0 (p * L) ((p + 1) * L - 1) = false ->
+  (p + 1) * L <= total_size done ->
+  expected p = Some (slice vs (p * L) ((p + 1) * L)).
+Proof.
+  intros Hs Hp Hcl Hle. unfold expected.
+  assert (allpos post) as Hpp by (rewrite Hs in Hpos; apply allpos_app in Hpos as [_ H]; exact H).
+  pose proof (total_size_nonneg post (allpos_nonneg _ Hpp)) as Htp.
+  pose proof (total_ge done post Hs) as Ht.
+  rewrite Z.min_l by lia.
+  rewrite Hs at 1. rewrite spoiled_in_app, Hcl. cbn [orb].
+  rewrite spoiled_in_nohit; [reflexivity|apply allpos_nonneg; exact Hpp|left; lia].
+Qed.
+
+Lemma real_items_no_reports (id : Z) (h : handles) (l : list bytes) :
+  flat_map excs_of (map fst (map (fun p => ((Some p, id, []), h)) l)) = [].
+Proof. induction l as [|x r IH]; [reflexivity|exact IH]. Qed.
+
+Lemma step_good done f post st acc c h' :
+  inv done (f :: post) st acc -> zlen acc * L < total_size done + fsize f ->
+  disk_get d (fid f) = Some c -> zlen c = fsize f ->
+  let data := slice vs (zlen acc * L) (total_size done + fsize f) in
+  file_mem f (mp_bycatch (it_mp st)) = false /\
+  pieces_from_handle L (it_trailing st) (skipn (Z.to_nat (it_skip st)) c) = chunks L data /\
+  inv (done ++ [f]) post
+      {| it_trailing := rem L data; it_skip := 0; it_mp := it_mp st; it_h := h'; it_lastfile := fid f |}
+      (acc ++ map (fun p => ((Some p, fid f, []), h')) (fulls L data)).
+Proof.
+  intros I Hnc Hc Hz data. destruct I.
+  set (n := zlen acc) in *. set (o := total_size done) in *. set (e := o + fsize f) in *.
+  cbn [bc_ok] in i_bc0. destruct i_bc0 as [Hmem Hbc].
+  cbn [skip_ok covered] in *. fold e in Hmem, i_skip0, i_reports0, Hbc.
+  replace (e <=? n * L) with false in * by lia.
+  assert (allpos done /\ 0 < fsize f /\ allpos post) as (Hpd & Hf & Hpp).
+  { rewrite i_split0 in Hpos. apply allpos_app in Hpos as [H1 H2]. inversion H2; subst. auto. }
+  pose proof (total_size_nonneg done (allpos_nonneg _ Hpd)) as Ho. fold o in Ho.
+  pose proof (total_size_nonneg post (allpos_nonneg _ Hpp)) as Htp.
+  pose proof (total_ge done (f :: post) i_split0) as Htot. rewrite total_size_cons in Htot. fold o in Htot.
+  pose proof (zlen_nonneg acc) as Hn0. fold n in Hn0.
+  destruct (goodb_true f c Hc Hz) as [Hgood Hvc].
+  pose proof (vs_split done f post i_split0) as Hslice. fold o in Hslice. fold e in Hslice. rewrite Hvc in Hslice.
+  split; [exact Hmem|].
+  (* the bytes that are cut into pieces *)
+  assert (it_trailing st ++ skipn (Z.to_nat (it_skip st)) c = data /\ zlen (it_trailing st) < L) as [Hdata Hshort].
+  { rewrite i_trail0, i_skip0. destruct (Z_lt_dec o (n * L)) as [Hsk|Hgd].
+    - rewrite slice_empty by lia. cbn [app]. rewrite Z.max_r by lia.
+      rewrite <- Hslice, skipn_slice by lia. unfold data. split; [f_equal; lia|unfold zlen; cbn; lia].
+    - rewrite Z.max_l by lia. cbn [Z.to_nat skipn]. rewrite <- Hslice. split.
+      + apply slice_app_adj; lia.
+      + rewrite slice_len; rewrite ?zlen_vs; lia. }
+  split; [rewrite (pieces_from_handle_eq L HL) by exact Hshort; rewrite Hdata; reflexivity|].
+  assert (zlen data = e - n * L) as Hdl by (unfold data; rewrite slice_len; rewrite ?zlen_vs; lia).
+  set (m := zlen data / L).
+  assert (0 <= m) as Hm0 by (apply Z.div_pos; lia).
+  assert (m * L <= e - n * L < m * L + L) as Hm.
+  { unfold m. rewrite Hdl. pose proof (Z.div_mod (e - n * L) L ltac:(lia)).
+    pose proof (Z.mod_pos_bound (e - n * L) L HL). nia. }
+  assert (zlen (acc ++ map (fun p => ((Some p, fid f, []), h')) (fulls L data)) = n + m) as Hn'.
+  { rewrite zlen_app. unfold zlen at 2. rewrite map_length. fold (zlen (fulls L data)).
+    rewrite (fulls_length L HL). reflexivity. }
+  assert (total_size (done ++ [f]) = e) as Ht.
+  { rewrite total_size_app. unfold total_size at 2. cbn [map sumZ]. unfold e, o. lia. }
+  constructor; rewrite ?Hn', ?Ht; cbn [it_trailing it_skip it_mp].
+  - rewrite i_split0, <- app_assoc. reflexivity.
+  - nia.
+  - nia.
+  - rewrite (rem_eq L HL). fold m. unfold data. rewrite skipn_slice by nia. f_equal. lia.
+  - apply bc_ok_none; [assumption|nia|]. eapply bc_ok_notin; eauto. lia.
+  - apply skip_ok_good; [nia|assumption].
+  - intros x Hx. apply i_seen0 in Hx. lia.
+  - intros H. exfalso. nia.
+  - intros a b Ha. rewrite spoiled_in_app, i_clean0 by nia. cbn [spoiled_in orb].
+    rewrite Hgood. reflexivity.
+  - rewrite !map_app, i_pieces0. rewrite (zrange_app 0 n (n + m)) by lia. rewrite map_app. f_equal.
+    rewrite !map_map. cbn [fst piece_of].
+    rewrite (fulls_as_map L data HL). fold m. rewrite map_map.
+    replace (zrange n (n + m)) with (map (fun j => n + j) (zrange 0 m)).
+    2:{ unfold zrange. rewrite map_map. replace (n + m - n) with (m - 0) by lia. apply map_ext. intros k. lia. }
+    rewrite map_map. apply map_ext_in. intros j Hj. apply zrange_In in Hj.
+    rewrite (expected_clean (n + j) (done ++ [f]) post).
+    + f_equal. unfold data. rewrite slice_slice by nia. f_equal; lia.
+    + rewrite i_split0, <- app_assoc. reflexivity.
+    + lia.
+    + rewrite spoiled_in_app, i_clean0 by nia. cbn [spoiled_in orb]. rewrite Hgood. reflexivity.
+    + rewrite Ht. nia.
+  - rewrite map_app, flat_map_app, real_items_no_reports, app_nil_r, i_reports0.
+    rewrite covered_nil by (try assumption; nia). rewrite !app_nil_r.
+    rewrite flat_map_app. cbn [flat_map]. rewrite (report_good d f Hgood). rewrite !app_nil_r. reflexivity.
+Qed.
+
+Lemma map_fst_pair {X Y} (h : Y) (l : list X) : map fst (map (fun it => (it, h)) l) = l.
+Proof. rewrite map_map. cbn [fst]. apply map_id. Qed.
+
+Lemma expected_spoiled p done f post :
+  fs = done ++ f :: post -> goodb d f = false ->
+  total_size done < (p + 1) * L -> p * L < total_size done + fsize f ->
+  expected p = None.
+Proof.
+  intros Hs Hbad H1 H2. unfold expected.
+  assert (allpos done /\ 0 < fsize f /\ allpos post) as (Hpd & Hf & Hpp).
+  { rewrite Hs in Hpos. apply allpos_app in Hpos as [Ha Hb]. inversion Hb; subst. auto. }
+  pose proof (total_size_nonneg post (allpos_nonneg _ Hpp)) as Htp.
+  pose proof (total_ge done (f :: post) Hs) as Ht. rewrite total_size_cons in Ht.
+  rewrite Hs at 1. rewrite spoiled_in_app. cbn [spoiled_in]. rewrite Hbad. cbn [negb andb].
+  replace (overlaps (0 + total_size done) (fsize f) (p * L) (Z.min ((p + 1) * L) total - 1)) with true
+    by (unfold overlaps; lia).
+  rewrite orb_true_r. reflexivity.
+Qed.
+
+Lemma step_bad done f post st acc reason h' :
+  inv done (f :: post) st acc -> zlen acc * L < total_size done + fsize f ->
+  goodb d f = false -> report_of d f = [reason] ->
+  exists items skip mp',
+    file_mem f (mp_bycatch (it_mp st)) = false /\
+    missing_pieces d fs L (it_mp st) f reason = Ok (items, skip, mp') /\
+    inv (done ++ [f]) post
+        {| it_trailing := []; it_skip := skip; it_mp := mp'; it_h := h'; it_lastfile := fid f |}
+        (acc ++ map (fun it => (it, h')) items).
+Proof.
+  intros I Hnc Hbad Hrep. destruct I.
+  set (n := zlen acc) in *. set (o := total_size done) in *. set (e := o + fsize f) in *.
+  cbn [bc_ok] in i_bc0. destruct i_bc0 as [Hmem Hbc].
+  cbn [skip_ok covered] in *. fold e in Hmem, i_skip0, i_reports0, Hbc.
+  replace (e <=? n * L) with false in * by lia.
+  assert (allpos done /\ 0 < fsize f /\ allpos post) as (Hpd & Hf & Hpp).
+  { rewrite i_split0 in Hpos. apply allpos_app in Hpos as [H1 H2]. inversion H2; subst. auto. }
+  pose proof (total_size_nonneg done (allpos_nonneg _ Hpd)) as Ho. fold o in Ho.
+  pose proof (zlen_nonneg acc) as Hn0. fold n in Hn0.
+  assert (NoDup (done ++ f :: post)) as Hnd' by (rewrite <- i_split0; exact Hnd).
+  assert (allpos (done ++ f :: post)) as Hpos' by (rewrite <- i_split0; exact Hpos).
+  destruct (missing_pieces_eval d L HL done f post (it_mp st) n reason Hnd' Hpos' Hn0
+              ltac:(fold o; fold e; lia) ltac:(fold o; lia) ltac:(fold o; lia) i_seen0 i_has0) as (skip & Hmp & Hsk).
+  rewrite <- i_split0 in Hmp. fold o in Hmp, Hsk. fold e in Hmp, Hsk.
+  set (plast := (e - 1) / L) in *. set (B := (plast + 1) * L - 1) in *.
+  set (E0 := spec_files_in_range done 0 (plast * L) B) in *.
+  set (C := covered post e (B + 1)) in *.
+  assert (n <= plast) as Hnp by (unfold plast; apply Z.div_le_lower_bound; lia).
+  assert (plast * L <= e - 1 < (plast + 1) * L) as Hpl.
+  { unfold plast. pose proof (Z.div_mod (e - 1) L ltac:(lia)). pose proof (Z.mod_pos_bound (e - 1) L HL). nia. }
+  assert (flat_map (report_of d) E0 = []) as HE0.
+  { unfold E0. apply spec_all_good. apply i_clean0. nia. }
+  destruct (mp_items_facts (fid f) reason (flat_map (report_of d) (E0 ++ C)) (plast - n + 1) ltac:(lia))
+    as (Hcount & Hnone & Hexcs).
+  set (items := mp_items (fid f) reason (flat_map (report_of d) (E0 ++ C)) (plast - n + 1)) in *.
+  exists items, skip, {| mp_seen := mp_seen (it_mp st) ++ zrange n (plast + 1);
+                          mp_bycatch := mp_bycatch (it_mp st) ++ E0 ++ C |}.
+  split; [exact Hmem|]. split; [exact Hmp|].
+  assert (zlen (acc ++ map (fun it => (it, h')) items) = plast + 1) as Hn'.
+  { rewrite zlen_app. unfold zlen at 2. rewrite map_length. fold (zlen items). rewrite Hcount. unfold n. lia. }
+  assert (total_size (done ++ [f]) = e) as Ht.
+  { rewrite total_size_app. unfold total_size at 2. cbn [map sumZ]. unfold e, o. lia. }
+  replace ((plast + 1) * L) with (B + 1) in * by (unfold B; lia).
+  constructor; rewrite ?Hn', ?Ht; cbn [it_trailing it_skip it_mp mp_seen mp_bycatch];
+    replace ((plast + 1) * L) with (B + 1) by (unfold B; lia).
+  - rewrite i_split0, <- app_assoc. reflexivity.
+  - lia.
+  - lia.
+  - rewrite slice_empty by lia. reflexivity.
+  - rewrite app_assoc. apply bc_ok_covered.
+    + apply NoDup_remove_1 in Hnd'. apply NoDup_app_r in Hnd'. exact Hnd'.
+    + exact Hpp.
+    + intros g Hg. rewrite file_mem_app.
+      rewrite (bc_ok_notin _ _ _ _ Hbc Hpp ltac:(lia) g Hg). cbn [orb].
+      apply file_mem_false. intros Hin. unfold E0 in Hin. apply spec_files_in_range_In in Hin as (k & Hk & _).
+      apply nth_error_In in Hk.
+      assert (NoDup (done ++ post)) as Hnd2 by (apply NoDup_remove_1 in Hnd'; exact Hnd').
+      clear - Hnd2 Hk Hg. induction done as [|x r IH]; [destruct Hk|].
+      cbn [app] in Hnd2. inversion Hnd2 as [|? ? Hnin Hnd3]; subst. destruct Hk as [->|Hk].
+      * apply Hnin. apply in_or_app. right. exact Hg.
+      * apply IH; assumption.
+  - exact Hsk.
+  - intros x Hx. apply in_app_or in Hx as [Hx|Hx]; [apply i_seen0 in Hx; lia|apply zrange_In in Hx; lia].
+  - intros _. apply in_or_app. right. apply zrange_In. lia.
+  - intros a b Ha. rewrite spoiled_in_app, i_clean0 by lia. cbn [spoiled_in orb].
+    fold o. assert (overlaps (0 + o) (fsize f) a b = false) as -> by (unfold overlaps; fold e; lia).
+    rewrite andb_false_r. reflexivity.
+  - rewrite !map_app, i_pieces0. rewrite (zrange_app 0 n (plast + 1)) by lia. rewrite map_app. f_equal.
+    rewrite map_fst_pair.
+    rewrite (map_const_repeat piece_of None items) by (intros x Hx; apply (proj1 (Forall_forall _ _) Hnone x Hx)).
+    rewrite (map_const_repeat expected None (zrange n (plast + 1))).
+    + f_equal. pose proof (zlen_zrange n (plast + 1) ltac:(lia)) as Hz. unfold zlen in Hz, Hcount. lia.
+    + intros p Hp. apply zrange_In in Hp. apply (expected_spoiled p done f post i_split0 Hbad); fold o; fold e; nia.
+  - rewrite map_app, flat_map_app, map_fst_pair, Hexcs, i_reports0.
+    rewrite flat_map_app in *. rewrite HE0. cbn [app]. rewrite !app_nil_r.
+    rewrite !flat_map_app. cbn [flat_map]. rewrite Hrep, app_nil_r. rewrite <- app_assoc. reflexivity.
+Qed.
